@@ -44,6 +44,7 @@ type Params struct {
 	Trailing int  // bytes after __LINKEDIT
 	SigFirst bool // LC_CODE_SIGNATURE placed before __LINKEDIT's segment command
 	NoLE     bool // no __LINKEDIT segment at all
+	CmdSlack int  // unused bytes inside sizeofcmds behind the last load command (refused without LC_CODE_SIGNATURE: fix F-MACHO-4)
 }
 
 func RandParams(r *hx.Rng) Params {
@@ -149,6 +150,7 @@ func Build(r *hx.Rng, p Params, oldSig []byte) []byte {
 	if p.OldSig > 0 {
 		cmdsLen += 16
 	}
+	cmdsLen += p.CmdSlack
 	firstSect := hdrLen + cmdsLen + p.Slack
 	textSize := p.TextSize
 	if textSize < firstSect+16 {
@@ -198,7 +200,7 @@ func Build(r *hx.Rng, p Params, oldSig []byte) []byte {
 	w32(&f, 3)
 	w32(&f, 2)
 	w32(&f, uint32(ncmd))
-	w32(&f, uint32(cmds.Len()))
+	w32(&f, uint32(cmds.Len()+p.CmdSlack))
 	w32(&f, 0x00200085)
 	if p.Is64 {
 		w32(&f, 0)
@@ -662,8 +664,14 @@ func genImages(w *bufio.Writer, r *hx.Rng, n int, prop string) {
 			p.Gap = r.Pick(0, 0, 0, 8, 16)
 			p.SigFirst = r.Intn(8) == 0
 			f = WithOldSig(r, p, r.Pick(600, 1024, 4096, 30000, 40000), ent, r.Intn(3) == 0)
-		case variant < 8: // irregular but parseable: trailing bytes, no __LINKEDIT, gap 17
-			switch r.Intn(4) {
+		case variant < 8: // irregular but parseable: trailing bytes, no __LINKEDIT, gap 17, unused bytes inside sizeofcmds
+			switch r.Intn(6) {
+			case 4: // sizeofcmds larger than the commands, no LC_CODE_SIGNATURE: refused since fix F-MACHO-4
+				p.CmdSlack = r.Pick(8, 16, 24, 1, 7)
+				f = Build(r, p, nil)
+			case 5: // the same with an LC_CODE_SIGNATURE command (too small / reusable region): accepted, command overwritten in place
+				p.CmdSlack = r.Pick(8, 16, 24, 1)
+				f = WithOldSig(r, p, r.Pick(600, 30000), nil, false)
 			case 0:
 				p.Trailing = r.Pick(1, 8, 100)
 				f = Build(r, p, nil)
@@ -796,6 +804,62 @@ func genSigned(w *bufio.Writer, r *hx.Rng, files, per int, prop string) {
 	}
 }
 
+// genCmdSlack: the test of scanFile on what is left of sizeofcmds behind the last load command (fix F-MACHO-4), every width
+// around the smallest command (8 bytes), without an LC_CODE_SIGNATURE command (refused) and with one (accepted: the command is
+// overwritten in place, its region too small for the new signature or reusable).
+func genCmdSlack(w *bufio.Writer, r *hx.Rng, prop string) {
+	for i, slack := range []int{1, 7, 8, 9, 16, 24} {
+		for _, signed := range []bool{false, true} {
+			p := smallParams(r)
+			p.BE = i == 3
+			p.TextSize = 4096
+			if p.Slack < 16 {
+				p.Slack = 16
+			}
+			p.CmdSlack = slack
+			var f []byte
+			if signed {
+				f = WithOldSig(r, p, r.Pick(600, 30000), nil, false)
+			} else {
+				f = Build(r, p, nil)
+			}
+			fmt.Fprintf(w, "MACHO scan %s\n", hx.Hex(f))
+			if prop != "C11" {
+				fmt.Fprintf(w, "MACHO sign %s 5 65536 %s %s n n p256\n", hx.Hex(f), hx.Hex([]byte("com.example.slack")), hx.Hex(emptyReqSet))
+			}
+		}
+	}
+}
+
+// genGuard: the size test of machos.Sign (fix F-MACHO-3) at its boundary.  The estimate is
+// codeSize*(20+hashSize)/4096 + len(entitlement) + len(requirements) + 16384: an entitlement of just under 10^7 bytes moves a
+// small image across the limit of readSigBlob (10e6) without an image of 786 MB.  Only the LENGTH goes into the op.
+func genGuard(w *bufio.Writer, r *hx.Rng, n int) {
+	for i := 0; i < n; i++ {
+		p := smallParams(r)
+		p.BE = false
+		if p.Slack < 16 {
+			p.Slack = 16
+		}
+		var f []byte
+		if i%3 == 2 {
+			f = WithOldSig(r, p, r.Pick(1024, 30000), nil, false) // an old region smaller than the estimate: same test
+		} else {
+			f = Build(r, p, nil)
+		}
+		m, err := machos.VerifScan(f)
+		if err != nil {
+			continue
+		}
+		hash := []int{5, 5, 3, 6}[i%4]
+		hs := map[int]int64{3: 20, 5: 32, 6: 48}[hash]
+		base := m.CodeSize*(20+hs)/4096 + 12 + 16384
+		// aligned estimate 9999992 / 10000000 (accepted), 10000008 (refused); and just inside / outside an 8-byte step
+		target := []int64{9999992, 10000000, 10000001, 10000008, 9999993}[i%5]
+		fmt.Fprintf(w, "MACHO signguard %s %d %d\n", hx.Hex(f), hash, target-base)
+	}
+}
+
 func Gen(w *bufio.Writer, seed uint64, tier string, prop string) {
 	r := hx.NewRng(seed ^ 0x4d4143484f)
 	thorough := tier == "thorough"
@@ -816,9 +880,14 @@ func Gen(w *bufio.Writer, seed uint64, tier string, prop string) {
 	case "C11":
 		genDirParse(w, r, pick(60, 1500))
 		genImages(w, r, pick(60, 1500), prop)
+		genCmdSlack(w, r, prop)
 	default: // C01, C03, C08
 		genImages(w, r, pick(45, 700), prop)
+		genCmdSlack(w, r, prop)
 		genSigned(w, r, pick(3, 30), 0, prop)
+		if prop == "C01" || prop == "C03" {
+			genGuard(w, r, pick(5, 20))
+		}
 		if prop == "C01" {
 			genCodeDir(w, r, pick(10, 100))
 			for i := 0; i < pick(1, 4); i++ {
@@ -840,6 +909,10 @@ func classify(err error) string {
 	switch {
 	case s == "apply failed":
 		return "apply"
+	case strings.Contains(s, "load commands do not fill sizeofcmds"):
+		return "slack" // fix F-MACHO-4
+	case strings.Contains(s, "image too large: the signature would need"):
+		return "signtoolarge" // fix F-MACHO-3
 	case strings.Contains(s, "has no __LINKEDIT segment"):
 		return "nolinkedit"
 	case strings.Contains(s, "invalid magic number"):
@@ -1101,6 +1174,26 @@ func Handle(f []string) (res string) {
 		}
 		return fmt.Sprintf("ok ss=%d sbl=%d n=%d lim=%d cd=%s items=%s pre=%s post=%s %s", off, length, binary.BigEndian.Uint32(cd[28:]),
 			binary.BigEndian.Uint32(cd[32:]), hx.Hex(cd), hj, hx.Hex(out[:off]), hx.Hex(out[off+length:]), verdict)
+	case "signguard":
+		img := hx.MustUnHex(f[1])
+		n := int(hx.Atoi(f[3]))
+		if n < 0 || n > 11000000 {
+			return "bad-op"
+		}
+		out, err := signReal(img, signOpts{hash: parseHash(f[2]), flags: 0x10000, ident: "com.example.guard", req: emptyReqSet,
+			ent: bytes.Repeat([]byte{'e'}, n), key: "p256"})
+		if err != nil {
+			return "err " + classify(err)
+		}
+		off, length, ok := locateLC(out)
+		if !ok {
+			return "err noloc"
+		}
+		verdict := "ok"
+		if v := verifyClass(out); v != "ok" {
+			verdict = "fail:" + v[4:]
+		}
+		return fmt.Sprintf("ok ss=%d sbl=%d verify=%s", off, length, verdict)
 	case "vfy":
 		return verifyClass(hx.MustUnHex(f[1]))
 	case "signfail":
